@@ -233,7 +233,9 @@ impl<'a> Cx<'a> {
                 self.insert(open, format!(" {} ", t));
             } else {
                 let close = body.brace_token.span.close().byte_range().start;
-                self.insert(close, format!(" {} ", t));
+                // a loop body ending in an expression without `;` (of type ()) gets one before the hint
+                let sep = if matches!(body.stmts.last(), Some(syn::Stmt::Expr(_, None))) { ";" } else { "" };
+                self.insert(close, format!("{} {} ", sep, t));
             }
         }
     }
